@@ -263,6 +263,15 @@ pub fn claim_truth(z: &Zone, q: &[Vec<u8>], t: u16, claim: &Claim) -> Truth {
         return Truth::True;
     }
     if z.occluded(q) {
+        if *claim == Claim::NoData && t == ty::DS {
+            // "no DS at q" below an *insecure* delegation is harmless (everything there is
+            // insecure anyway, and RFC 5155 §8.6 accepts exactly such opt-out proofs); below a
+            // *secure* delegation it is a downgrade: only the child zone can say it
+            let cut = z.covering_cut(q).unwrap_or_default();
+            if z.rrset(&cut, ty::DS).is_none() {
+                return Truth::Ambiguous("ds-below-insecure-cut");
+            }
+        }
         return Truth::NotEntailable("below-cut");
     }
     let at_cut = z.is_delegation(q);
@@ -400,17 +409,25 @@ pub fn roles(z: &Zone, q: &[Vec<u8>], t: u16, claim: &Claim, opt_out: bool, s: &
     };
     match claim {
         Claim::NoData => {
-            let in_chain = z.exists(&q) && !(opt_out && z.is_delegation(&q) && z.rrset(&q, ty::DS).is_none());
+            let in_chain = z.exists(&q) && (!opt_out || nsec3_names(z, true).iter().any(|n| *n == q));
             if in_chain {
                 r.sub = "direct";
                 r.ce = q.clone();
                 r.parts.push(("match-qname", has_match(&hq)));
             } else if z.exists(&q) {
-                // insecure delegation left out of an opt-out chain: DS absence by §8.6 second case
-                r.sub = "ds-optout";
+                // insecure delegation (or an empty non-terminal that exists only because of one)
+                // left out of an opt-out chain: closest provable encloser + opt-out cover (§8.6)
                 let ce = provable_encloser(z, &suffix(&q, q.len() - 1), opt_out);
                 let oo = ce_proof(&mut r, hs, &ce);
-                r.parts.push(("nc-optout", oo));
+                if t == ty::DS {
+                    r.sub = "ds-optout";
+                    r.parts.push(("nc-optout", oo));
+                } else {
+                    // no RFC 5155 §8 proof exists for other types at a name without NSEC3 RR; an
+                    // opt-out span proves nothing about them
+                    r.sub = "optout-ent";
+                    r.nc_optout = oo;
+                }
             } else {
                 r.sub = "wildcard";
                 let ce = provable_encloser(z, &q, opt_out);
@@ -441,8 +458,66 @@ pub fn roles(z: &Zone, q: &[Vec<u8>], t: u16, claim: &Claim, opt_out: bool, s: &
             r.nc = Some(nc);
         }
     }
-    let _ = t;
     r
+}
+
+/// The proof shape a record set *presents* for q, read off the set alone (no zone knowledge):
+/// is q matched or covered, which is the longest strict ancestor that is matched (for an
+/// expansion: the ancestor the RRSIG Labels field names), is the next closer name below it
+/// covered (and by an Opt-Out record), do the matching records look like delegations.
+#[derive(Clone, Debug, Default)]
+pub struct Presented {
+    pub q_matched: bool,
+    /// the record matching q has NS without SOA (parent side of a delegation)
+    pub q_deleg: bool,
+    /// Some(opt-out flag) of a record covering q itself
+    pub q_cover: Option<bool>,
+    pub ce: Option<Name>,
+    pub ce_matched: bool,
+    pub ce_deleg: bool,
+    /// Some(opt-out flag of the covering record)
+    pub nc_cover: Option<bool>,
+}
+
+pub fn presented(q: &[Vec<u8>], claim: &Claim, apex_len: usize, s: &[&N3], hs: &mut Hasher) -> Presented {
+    let q = fold(q);
+    let mut p = Presented::default();
+    let is_deleg = |r: &N3| r.types.contains(&ty::NS) && !r.types.contains(&ty::SOA);
+    let hq = hs.h(&q);
+    if let Some(r) = s.iter().find(|r| r.matches(&hq)) {
+        p.q_matched = true;
+        p.q_deleg = is_deleg(r);
+    }
+    p.q_cover = s.iter().find(|r| r.covers(&hq)).map(|r| r.opt_out);
+    if let Claim::Expansion { labels } = claim {
+        if *labels < q.len() && *labels >= apex_len {
+            let a = suffix(&q, *labels);
+            let ha = hs.h(&a);
+            if let Some(r) = s.iter().find(|r| r.matches(&ha)) {
+                p.ce_matched = true;
+                p.ce_deleg = is_deleg(r);
+            }
+            let hnc = hs.h(&suffix(&q, labels + 1));
+            p.nc_cover = s.iter().find(|r| r.covers(&hnc)).map(|r| r.opt_out);
+            p.ce = Some(a);
+        }
+        return p;
+    }
+    let mut k = q.len();
+    while k > apex_len {
+        k -= 1;
+        let a = suffix(&q, k);
+        let ha = hs.h(&a);
+        if let Some(r) = s.iter().find(|r| r.matches(&ha)) {
+            p.ce_matched = true;
+            p.ce_deleg = is_deleg(r);
+            let hnc = hs.h(&suffix(&q, k + 1));
+            p.nc_cover = s.iter().find(|r| r.covers(&hnc)).map(|r| r.opt_out);
+            p.ce = Some(a);
+            break;
+        }
+    }
+    p
 }
 
 /// The records of `chain` an honest server sends for the (true) claim — RFC 5155 §7.2.
@@ -522,7 +597,7 @@ pub enum Edit {
     SetDeleg(Name, bool),
 }
 
-fn filler_rdata(t: u16, apex: &[Vec<u8>]) -> Vec<u8> {
+pub fn filler_rdata(t: u16, apex: &[Vec<u8>]) -> Vec<u8> {
     match t {
         x if x == ty::A => refzone::rd_a(200),
         x if x == ty::AAAA => refzone::rd_aaaa(200),
@@ -606,6 +681,10 @@ pub fn single_edits(z: &Zone, q: &[Vec<u8>], t: u16) -> Vec<Edit> {
         }
         v.push(Edit::SetDeleg(n.clone(), false));
         v.push(Edit::SetDeleg(n.clone(), true));
+    }
+    // the apex can only gain a type
+    if fold(q) == z.apex && t != ty::DS && t != ty::CNAME {
+        v.push(Edit::AddType(z.apex.clone(), t));
     }
     v
 }
